@@ -5,6 +5,9 @@
 //
 // script lines:
 //   SEED <n>                         set UTAP::tracker.position = n before the next call   (seq mode only; `fresh` ignores it)
+//   CWD <hex directory>              change the working directory of the process (both modes: a fresh child inherits it).  The working
+//                                    directory at the time of a call is part of that call's input - `import "<relative name>"`
+//                                    declarations are resolved against it - so both runs of a call see the same one
 //   CALL <kind> <a> <b> <hex input>  one parsing call; one JSON line with its canonical result is printed
 //        kinds: XML  a=newxta            parse_XML_buffer(buf, Document*, newxta)
 //               XTA  a=newxta            parse_XTA(buf, Document*, newxta)
@@ -204,6 +207,7 @@ int main(int argc, char** argv)
 {
     std::ios::sync_with_stdio(false);
     bool fresh = argc > 1 && std::string(argv[1]) == "fresh";
+    unsetenv("UTAP_VERIF_NO_DLOPEN");   // the import calls of the scripts name libraries the check has built itself
     std::string line;
     while (std::getline(std::cin, line)) {
         std::istringstream is(line);
@@ -213,6 +217,15 @@ int main(int argc, char** argv)
             unsigned long long n;
             is >> n;
             if (!fresh) tracker.position = (uint32_t)n;
+            continue;
+        }
+        if (op == "CWD") {
+            std::string hexdir;
+            is >> hexdir;
+            if (chdir(unhex(hexdir).c_str()) != 0) {
+                std::cerr << "cannot change to " << unhex(hexdir) << "\n";
+                return 4;
+            }
             continue;
         }
         if (op != "CALL") continue;
